@@ -42,7 +42,7 @@ package netpoll
 //@ pred cblist() = forall n *callbackNode :: n != nil ==> n.fn#id != 0
 // everything about a connection that stays true whatever other goroutines and user callbacks do through the public API
 //@ pred cinv(c *connection) = connok(c) && cblist() && c.operator.detached >= 0 && c.operator.detached < 2147483000
-//@     && (c.closeCallbacks.v == nil || typeis(c.closeCallbacks.v, *callbackNode))
+//@     && (c.closeCallbacks.v == nil || typeis(c.closeCallbacks.v, *callbackNode)) && c.state >= 0 && c.state <= 2
 
 // ---- user callbacks: assumed contracts (they use the public API only, which keeps the object invariant) ----
 //@ functype OnRequest
@@ -145,13 +145,14 @@ package netpoll
 //@ func (*connection).onProcess$1
 //@   property C05 C06 C09
 //@   requires c != nil && cinv(c)
-//@   requires c.heldP && !c.sealed_heldP && (onConnect != nil ==> c.heldC) && (onConnect == nil ==> !c.heldC)
+//@   requires c.heldP && !c.sealed_heldP && (onConnect != nil ==> c.heldC)
+//@   threadlocal onConnect == nil ==> !c.heldC
 //@   requires onConnect == nil ==> c.state != 0 || c.onConnectCallback.v == nil
 //@   requires onConnect != nil ==> c.state == 0
-//@   takes c.heldP, c.heldC
+//@   takes c.heldP, c.heldC if onConnect != nil
 //@   threadlocal !tkReleased && !tkSawClosing && !tkTriedAfterClosing && !tkSawLen && !tkTriedAfterLen && !tkLenZeroSeen && cbRuns == 0
 //@   rely locker.keychain[closing]: was != 0 ==> now != 0
-//@   rely connection.state: now >= was && (was == 0 && c.heldC ==> now == 0)
+//@   rely connection.state: now >= was && now <= 2 && (was == 0 && c.heldC ==> now == 0)
 //@   ensures (!c.heldP || c.sealed_heldP) && !c.heldC && cbRuns <= 1
 //@   ensures !c.heldP ==> tkReleased && tkSawClosing && (tkClosingVal != 0 ==> tkTriedAfterClosing) && (onRequest != nil ==> tkSawLen && (tkLenVal > 0 ==> tkTriedAfterLen))
 //@   onpanic (!c.heldP || c.sealed_heldP) && cbRuns <= 1
@@ -169,10 +170,123 @@ package netpoll
 //@ func (*connection).onProcess
 //@   property C05 C06 C09
 //@   requires cinv(c) && (c.sealed_heldP ==> c.heldP)
-//@   requires onConnect != nil ==> c.heldC
-//@   requires onConnect == nil ==> !c.heldC && (c.state != 0 || c.onConnectCallback.v == nil)
-//@   rely connection.state: now >= was
-//@   ensures processed ==> !c.heldC && (old(c.heldP) == c.heldP || !c.heldP)
+//@   requires onConnect != nil ==> c.heldC && !c.heldP && c.state == 0
+//@   requires onConnect == nil ==> (c.heldC ==> c.heldP) && (c.state != 0 || c.onConnectCallback.v == nil)
+//@   rely connection.state: now >= was && now <= 2 && (was == 0 && c.heldC ==> now == 0)
+//@   ensures processed ==> !old(c.heldP) && !c.heldP && (onConnect != nil ==> !c.heldC) && (onConnect == nil ==> c.heldC == old(c.heldC))
 //@   ensures !processed ==> c.heldP == old(c.heldP) && c.heldC == old(c.heldC)
-//@   ensures c.sealed_heldP == old(c.sealed_heldP)
+//@   ensures c.sealed_heldP == old(c.sealed_heldP) && c.heldF == old(c.heldF)
 //@   modifies c.heldP, c.heldC, locker.keychain
+
+// how many times this goroutine invoked an OnDisconnect callback (ghost)
+//@ ghost global discRuns int
+//@ ghost global hupDisc bool
+
+//@ func (*connection).onRequest
+//@   property C06 C09
+//@   requires cinv(c) && (c.sealed_heldP ==> c.heldP) && (c.heldC ==> c.heldP)
+//@   rely connection.state: now >= was && now <= 2
+//@   ensures c.heldP == old(c.heldP) && c.heldC == old(c.heldC) && c.sealed_heldP == old(c.sealed_heldP) && c.heldF == old(c.heldF)
+//@   modifies locker.keychain, c.heldP, c.heldC
+
+//@ func (*connection).onConnect
+//@   property C06 C09
+//@   requires cinv(c) && !c.heldC && !c.heldP && !c.sealed_heldP && c.state == 0
+//@   rely connection.state: now >= was && now <= 2 && (was == 0 && c.heldC ==> now == 0)
+//@   ensures !c.heldP
+//@   modifies c.state, locker.keychain, c.heldP, c.heldC
+
+//@ func (*connection).onDisconnect
+//@   property C09
+//@   requires cinv(c) && c.keychain[closing] != 0 && !c.heldC
+//@   rely connection.state: now >= was && now <= 2
+//@   ensures cinv(c) && !c.heldC && discRuns - old(discRuns) <= 1 && discRuns >= old(discRuns)
+//@   ensures c.heldP == old(c.heldP) && c.sealed_heldP == old(c.sealed_heldP) && c.heldF == old(c.heldF)
+//@   modifies world, discRuns, c.heldC
+//@   ghost before call dyn#1: discRuns = discRuns + 1
+//@   ghost before call dyn#2: discRuns = discRuns + 1
+
+//@ func (*connection).onHup
+//@   property C05 C09
+//@   requires cinv(c) && !c.heldC && !c.heldP && !c.sealed_heldP
+//@   threadlocal !hupDisc
+//@   rely locker.keychain[closing]: was != 0 ==> now != 0
+//@   ensures result == nil && !c.heldC && (c.heldP == c.sealed_heldP)
+//@   ensures discRuns - old(discRuns) <= 1 && cbRuns - old(cbRuns) <= 1 && cbRuns >= old(cbRuns)
+//@   ensures cbRuns > old(cbRuns) ==> hupDisc
+//@   modifies world, c.heldP, c.heldC, c.sealed_heldP, cbRuns, discRuns, hupDisc
+//@   ghost after call (*connection).onDisconnect#1: hupDisc = true
+//@   ghost before call (*connection).closeCallback#1: assert hupDisc
+
+//@ func (*connection).SetOnRequest
+//@   property C06
+//@   requires cinv(c) && (c.sealed_heldP ==> c.heldP) && (c.heldC ==> c.heldP)
+//@   rely connection.state: now >= was && now <= 2
+//@   ensures result == nil && c.heldP == old(c.heldP) && c.heldC == old(c.heldC) && c.sealed_heldP == old(c.sealed_heldP)
+//@   modifies locker.keychain, c.onRequestCallback.v, c.heldP, c.heldC
+
+// ---- descriptors ----
+// fdopen[n]: descriptor number n is open and owned by a netpoll object; closecnt[n]: close(2) calls issued on n (ghost)
+//@ ghost map fdopen bool
+//@ ghost map closecnt int
+// slot ownership: the connection owns its poller slot from Alloc until the finalizer frees it
+//@ ghost field FDOperator.owned bool threadlocal
+
+//@ iface Poll.Free
+//@   params operator
+//@   requires operator.owned
+//@   ensures !operator.owned
+//@   modifies operator.owned
+//@ iface Poll.Alloc
+//@   results operator
+//@   ensures operator != nil && operator.owned && operator.detached == 0
+//@   modifies nothing
+
+//@ func (*locker).stop
+//@   property C05 C08
+//@   requires k == flushing
+//@   modifies l.keychain
+//@   loop 1 invariant true
+
+//@ func (*netFD).Close
+//@   property C05 C15
+//@   requires c.closed == 0 && !c.detaching && c.fd > 2 ==> fdopen[c.fd]
+//@   requires c.closed < 4294967295
+//@   ensures c.closed == old(c.closed) + 1
+//@   ensures old(c.closed) == 0 && !c.detaching && c.fd > 2 ==> !fdopen[c.fd] && closecnt[c.fd] == old(closecnt[c.fd]) + 1
+//@   ensures !(old(c.closed) == 0 && !c.detaching && c.fd > 2) ==> fdopen[c.fd] == old(fdopen[c.fd]) && closecnt[c.fd] == old(closecnt[c.fd])
+//@   ensures forall x int :: x != c.fd ==> fdopen[x] == old(fdopen[x]) && closecnt[x] == old(closecnt[x])
+//@   modifies c.closed, fdopen, closecnt
+
+//@ func (*FDOperator).Free
+//@   property C05 C10
+//@   requires op.poll != nil && op.owned
+//@   ensures !op.owned
+//@   modifies op.owned
+
+// the finalizer registered by initFinalizer: runs as the first-registered (hence last) close callback
+//@ func (*connection).initFinalizer$1
+//@   property C05 C10 C15
+//@   requires cinv(c) && c.heldP && c.keychain[closing] != 0 && c.operator.poll != nil && c.operator.owned
+//@   requires wfs(c.inputBuffer) && wfs(c.outputBuffer) && c.outputBarrier != nil
+//@   note these object invariants are established by init and only falsified by this finalizer itself, which runs at most once (closeCallback)
+//@   requires c.closed == 0 && !c.detaching && c.fd > 2 ==> fdopen[c.fd]
+//@   requires c.closed < 4294967295
+//@   ensures err == nil && !c.operator.owned && c.closed == old(c.closed) + 1
+//@   ensures old(c.closed) == 0 && !c.detaching && c.fd > 2 ==> !fdopen[c.fd] && closecnt[c.fd] == old(closecnt[c.fd]) + 1
+//@   ensures c.detaching ==> closecnt[c.fd] == old(closecnt[c.fd])
+//@   modifies anything
+
+//@ func (*connection).Detach
+//@   property C05 C12
+//@   requires cinv(c) && (c.sealed_heldP ==> c.heldP)
+//@   rely locker.keychain[closing]: was != 0 ==> now != 0
+//@   ensures result == nil && c.keychain[closing] != 0
+//@   modifies world, c.heldP, c.sealed_heldP, cbRuns
+
+//@ func (*connection).closeBuffer
+//@   property C03 C05
+//@   requires connok(c) && wfs(c.inputBuffer) && wfs(c.outputBuffer) && c.outputBarrier != nil
+//@   ensures old(c.inputBuffer.length) == 0 ==> closedbuf(c.inputBuffer)
+//@   ensures old(c.outputBuffer.length) == 0 ==> closedbuf(c.outputBuffer)
+//@   modifies UnsafeLinkBuffer.length, UnsafeLinkBuffer.mallocSize, UnsafeLinkBuffer.read, UnsafeLinkBuffer.head, UnsafeLinkBuffer.flush, UnsafeLinkBuffer.write, UnsafeLinkBuffer.caches, UnsafeLinkBuffer.cachePeek, linkBufferNode.refer, linkBufferNode.buf, linkBufferNode.origin, linkBufferNode.next, linkBufferNode.own, pool, mem:[]byte
